@@ -24,7 +24,7 @@ from typing import Any, Callable, Optional
 VERIF = Path(__file__).resolve().parent.parent
 REPO = Path(os.environ.get("VERIF_REPO", "/repo"))
 SRC = REPO / "src" / "icalendar"
-EVIDENCE_DIR = VERIF / "evidence"
+EVIDENCE_DIR = Path(os.environ.get("VERIF_EVIDENCE_DIR") or (VERIF / "evidence"))   # override only for scratch runs against seeded copies
 REPLAY_DIR = VERIF / "replays"
 KNOWN_FINDINGS = VERIF / "known_findings.json"
 
